@@ -511,7 +511,7 @@ pub const fn spec_huff_table_ok() -> bool {
     true
 }
 pub const SPEC_HUFF_TABLE_OK: bool = spec_huff_table_ok();
-const _: () = assert!(SPEC_HUFF_TABLE_OK);
+const _: [(); 1] = [(); SPEC_HUFF_TABLE_OK as usize]; // compile-time check: does not build if the table is wrong
 
 /// bit `i` (0 = most significant bit of s[0]) of the big-endian bit string `s`
 pub fn spec_bit(s: &[u8], i: usize) -> u8 {
